@@ -124,6 +124,7 @@ impl rustc_driver::Callbacks for Cb {
                 DefKind::Struct | DefKind::Enum | DefKind::Union => dump_adt(&cx, did, &mut out),
                 DefKind::Impl { .. } => dump_impl(&cx, did, &mut out),
                 DefKind::Const { .. } | DefKind::AssocConst { .. } => dump_const(&cx, did, &mut out),
+                DefKind::Static { .. } => dump_static(&cx, did, &mut out),
                 DefKind::Trait => dump_trait(&cx, did, &mut out),
                 _ => {}
             }
@@ -275,6 +276,44 @@ fn dump_const<'tcx>(cx: &Ctx<'tcx>, did: DefId, out: &mut String) {
     let _ = writeln!(
         out,
         "{{\"t\":\"const\",\"id\":{},\"ty\":{},\"val\":{},\"file\":{},\"line\":{}}}",
+        jstr(&cx.path(did)),
+        jstr(&cx.ty_str(t)),
+        jstr(&val),
+        jstr(&l.file),
+        l.line
+    );
+}
+
+fn dump_static<'tcx>(cx: &Ctx<'tcx>, did: DefId, out: &mut String) {
+    let tcx = cx.tcx;
+    let t = tcx.type_of(did).instantiate_identity().skip_norm_wip();
+    if !(t.is_integral() || t.is_bool()) {
+        return;
+    }
+    let alloc = match tcx.eval_static_initializer(did) {
+        Ok(a) => a,
+        Err(_) => return,
+    };
+    let a = alloc.inner();
+    let n = a.len();
+    if n == 0 || n > 16 {
+        return;
+    }
+    let bytes = a.inspect_with_uninit_and_ptr_outside_interpreter(0..n);
+    let mut v: u128 = 0;
+    for (i, b) in bytes.iter().enumerate() {
+        v |= (*b as u128) << (8 * i);
+    }
+    let val = if t.is_signed() {
+        let sh = 128 - 8 * n as u32;
+        format!("{}", ((v << sh) as i128) >> sh)
+    } else {
+        format!("{}", v)
+    };
+    let l = cx.loc(tcx.def_span(did));
+    let _ = writeln!(
+        out,
+        "{{\"t\":\"const\",\"id\":{},\"ty\":{},\"val\":{},\"file\":{},\"line\":{},\"static\":true}}",
         jstr(&cx.path(did)),
         jstr(&cx.ty_str(t)),
         jstr(&val),
